@@ -448,8 +448,17 @@ func (g *generator) walkObject(schema *schemaparser.Schema) (ast.Type, error) {
 	}
 
 	// TODO: finish implementation
+	// Properties are visited in a stable order: definitions are declared as
+	// they are met, and the first one met wins when two of them share a name.
+	names := make([]string, 0, len(schema.Properties))
+	for name := range schema.Properties {
+		names = append(names, name)
+	}
+	sort.Strings(names)
+
 	fields := make([]ast.StructField, 0, len(schema.Properties))
-	for name, property := range schema.Properties {
+	for _, name := range names {
+		property := schema.Properties[name]
 		fieldDef, err := g.walkDefinition(property)
 		if err != nil {
 			return ast.Type{}, fmt.Errorf("%s: %w", name, err)
